@@ -989,6 +989,12 @@ class TrustRegion:
                     best_index = k
                     m_best = m_val
                     r_best = r_val
+                    tol = (
+                        10.0
+                        * EPS
+                        * max(self.models.n, self.models.npt)
+                        * max(abs(m_best), 1.0)
+                    )
         self._best_index = best_index
 
     def get_index_to_remove(self, x_new=None):
